@@ -79,13 +79,14 @@ CONFIGS = [
     ('GodambeMC', 'GodambeMC_stencil_quick.cfg', Q, 'pass'), ('GodambeMC', 'GodambeMC_stencil_thorough.cfg', T, 'pass'),
     ('GodambeMC', 'GodambeMC_stats_quick.cfg', Q, 'pass'), ('GodambeMC', 'GodambeMC_stats_thorough.cfg', T, 'pass'),
     ('GodambeMC', 'GodambeMC_cache_quick.cfg', Q, 'pass'), ('GodambeMC', 'GodambeMC_cache_thorough.cfg', T, 'pass'),
-    ('GodambeMC', 'GodambeMC_cache_hashkey.cfg', Q, 'fail'),
+    ('GodambeMC', 'GodambeMC_cache_hashkey.cfg', Q, 'fail'), ('GodambeMC', 'GodambeMC_cache_dropgrid.cfg', Q, 'fail'),
+    ('GodambeMC', 'GodambeMC_cache_dropns.cfg', Q, 'fail'), ('GodambeMC', 'GodambeMC_cache_dropparams.cfg', Q, 'fail'),
     ('Memo', 'MemoMC_quick.cfg', Q, 'pass'), ('Memo', 'MemoMC_graph.cfg', Q, 'pass'), ('Memo', 'MemoMC_layout_quick.cfg', Q, 'pass'),
     ('Memo', 'MemoMC_god_quick.cfg', Q, 'pass'), ('Memo', 'MemoMC_god_thorough.cfg', T, 'pass'),
     ('Memo', 'MemoMC_thorough.cfg', T, 'pass'), ('Memo', 'MemoMC_memo3_thorough.cfg', T, 'pass'),
     ('Memo', 'MemoMC_layout_thorough.cfg', T, 'pass'),
-] + [('Memo', 'MemoMC_bug_%s.cfg' % b, Q if b in ('dbetakey', 'godaddr', 'raw45', 'kernelstate', 'hashorder') else T, 'fail')
-     for b in ('dbetakey', 'demes', 'godaddr', 'hashorder', 'kernelstate', 'partkey', 'perturb', 'projkey', 'raw45', 'rawxx', 'sfslist')] + [
+] + [('Memo', 'MemoMC_bug_%s.cfg' % b, Q if b in ('dbetakey', 'godaddr', 'raw45', 'kernelstate', 'hashorder', 'latecopy', 'vector') else T, 'fail')
+     for b in ('dbetakey', 'demes', 'godaddr', 'hashorder', 'kernelstate', 'latecopy', 'partkey', 'perturb', 'projkey', 'raw45', 'rawxx', 'sfslist', 'vector')] + [
     ('MsIOMC', 'MsIOMC_quick.cfg', Q, 'pass'), ('MsIOMC', 'MsIOMC_thorough.cfg', T, 'pass'),
     ('SchemeXMC', 'SchemeXMC_quick.cfg', Q, 'pass'), ('SchemeXMC', 'SchemeXMC_thorough.cfg', T, 'pass'),
     ('TriSpectrumMC', 'TriSpectrumMC_quick.cfg', Q, 'pass'), ('TriSpectrumMC', 'TriSpectrumMC_thorough.cfg', T, 'pass'),
@@ -493,6 +494,8 @@ def audit(tier='quick', only=None, skip=None, jobs=4, workers=4, timeout=900, ke
         for e in allow:
             if not e.get('_used'):
                 print('note: allow-list entry matches nothing any more: %s %s %s %r' % (e['cfg'], e['kind'], e.get('where', ''), e.get('expr', '')), file=out)
+    for u in unknown_cfgs():
+        print('note: spec/%s is not in the CONFIGS table of harness/vacuity.py (not audited)' % u, file=out)
     print('vacuity: %d configurations, %.0f s wall' % (len(sel), time.time() - t0), file=out)
     for m in machinery:
         print('MACHINERY ' + m, file=out)
@@ -501,11 +504,13 @@ def audit(tier='quick', only=None, skip=None, jobs=4, workers=4, timeout=900, ke
     return 2 if machinery else 1 if bad else 0
 
 
-def list_unknown():
-    import glob
+def unknown_cfgs():
     known = {c[1] for c in CONFIGS} | NOT_EXHAUSTIVE
-    un = sorted(os.path.basename(p) for p in glob.glob(os.path.join(SPEC, '*.cfg'))
-                if os.path.basename(p) not in known and not os.path.basename(p).startswith('Trace_'))
+    return sorted(f for f in os.listdir(SPEC) if f.endswith('.cfg') and f not in known and not f.startswith('Trace_'))
+
+
+def list_unknown():
+    un = unknown_cfgs()
     for u in un:
         print(u)
     return 1 if un else 0
